@@ -48,3 +48,31 @@ Theorem C02_rdflib_generator_is_generic :
     rd_kind d <> RDataset -> rdf_triples_stream_frames d s = triples_stream_frames (sdata_of d) s.
 Proof. exact rdf_triples_as_generic. Qed.
 Print Assumptions C02_rdflib_generator_is_generic.
+
+(* ---- Datasets: the rdflib QuadStream and GraphStream serializers ---- *)
+From PJ.Proofs Require Import EncRdflibQuads EncGraphs.
+
+(* rdflib names the default graph by the IRI urn:x-rdflib:default; [quad_inv] / [graphs_inv] read
+   that IRI as the default graph, which is what a parser hands back.  An accepted rdflib QuadStream
+   run over RDF 1.1 quads writes a Spec-valid stream denoting exactly the input quads, in order. *)
+Theorem C02_rdflib_quads_stream_valid :
+  forall (o : soptions) (s s' : stream) (d : rdata) (evs : list tev),
+    stream_new QuadStream Rdflib o = Ok s -> cfg_ok o (st_logical s) ->
+    p_nd (so_params o) = false -> fl_rows (st_flow s) = [] ->
+    forallb spo_rdf11 (rd_stmts d) = true ->
+    rdf_quads_stream_frames d s = (s', evs) -> raised evs = None ->
+    run (flat_map f_rows (emitted evs)) = Valid (flat_map event_of_quad (map quad_inv (rd_stmts d))).
+Proof. exact rdf_quads_stream_valid. Qed.
+Print Assumptions C02_rdflib_quads_stream_valid.
+
+(* ... and an accepted rdflib GraphStream run over Dataset.graphs() denotes every triple of every
+   graph, tagged with that graph, in iteration order. *)
+Theorem C02_rdflib_graphs_stream_valid :
+  forall (o : soptions) (s s' : stream) (d : rdata) (evs : list tev),
+    stream_new GraphStream Rdflib o = Ok s -> cfg_ok o (st_logical s) ->
+    p_nd (so_params o) = false -> fl_rows (st_flow s) = [] ->
+    graphs_rdf11 (rd_graphs d) = true ->
+    rdf_graphs_stream_frames d s = (s', evs) -> raised evs = None ->
+    run (flat_map f_rows (emitted evs)) = Valid (flat_map run_events (graphs_inv (rd_graphs d))).
+Proof. exact rdf_graphs_stream_valid. Qed.
+Print Assumptions C02_rdflib_graphs_stream_valid.
